@@ -193,7 +193,9 @@ impl fmt::Display for HumanFloatCount {
 
         let (int_part, frac_part) = match num.split_once('.') {
             Some((int_str, fract_str)) => (int_str.to_string(), fract_str),
-            None => (self.0.trunc().to_string(), ""),
+            // No fractional digits were requested (or the value is not finite): the rounded
+            // text itself is the integer part.
+            None => (num.clone(), ""),
         };
         let len = int_part.len();
         for (idx, c) in int_part.chars().enumerate() {
